@@ -337,6 +337,10 @@ def in_context(ctx, sig):
         return [op("repeat", actions={"a": [sig, draw(g("Custom", elem=g("Int8"), body=[], fresh=True), "c")]})]
     if ctx == "cleanup_skip_after":
         return [op("cleanup", body=[op("skip")]), sig]
+    if ctx == "custom_cleanup_skip_after":   # inside a Custom function: a cleanup registered there skips, then the function fails
+        return [draw(g("Custom", elem=g("Int8"), body=[op("cleanup", body=[op("skip")]), sig], fresh=True), "c")]
+    if ctx == "action_cleanup_skip_after":
+        return [op("repeat", actions={"a": [draw(g("Bool"), "b"), op("cleanup", body=[op("skip")]), sig]})]
     # the property's own code swallows the panic that carries a fatal signal (a deferred recover() around a callback)
     if ctx == "recovered":
         return [op("recover", body=[sig]), draw(g("Bool"), "b")]
@@ -351,7 +355,7 @@ def in_context(ctx, sig):
 
 CONTEXTS = ["body", "body_skip", "cleanup", "cleanup_then_skip", "custom", "custom_retry", "custom_cleanup", "custom_skip",
             "action", "inv0", "inv_after", "goroutine", "custom_in_action", "cleanup_skip_after", "then_custom", "action_then_custom",
-            "recovered", "action_recovered", "custom_recovered", "cleanup_recovered"]
+            "recovered", "action_recovered", "custom_recovered", "cleanup_recovered", "custom_cleanup_skip_after", "action_cleanup_skip_after"]
 POSITIONS = ["first", "middle", "last", "after_skips"]
 
 
